@@ -292,7 +292,8 @@ LEAF_POOLS = {
     "bytes": [b"", b"ab", b"1", b"\xff\x00"],
     "bytearray": [bytearray(b""), bytearray(b"ab")],
     "Decimal": [decimal.Decimal(s) for s in ("0", "1.50", "-0", "1E+10", "0.1", "-123.456", "1e-30")],
-    "Fraction": [fractions.Fraction(1, 3), fractions.Fraction(-7, 2), fractions.Fraction(5), fractions.Fraction(0)],
+    "Fraction": [fractions.Fraction(1, 3), fractions.Fraction(-7, 2), fractions.Fraction(5), fractions.Fraction(0),
+                 fractions.Fraction(3, 2)],
     "UUID": [uuid.UUID(int=0), uuid.UUID("12345678-1234-5678-1234-567812345678"), uuid.UUID(int=2**128 - 1)],
     "PurePosixPath": [pathlib.PurePosixPath(p) for p in ("a/b", "/abs/x", ".", "1")],
     "Path": [pathlib.Path(p) for p in ("a/b", "/abs/x", ".")],
